@@ -9,11 +9,13 @@ def main():
     for out, ok, msg in res:
         if not ok:
             log("rs2v failed for %s: %s" % (out, msg))
-    ok, mlog = coqbuild.make()
-    if not ok:
-        log(mlog[-5000:])
-        log("coq build failed")
-        return 1
+    coqbuild.ensure_makefile()
+    from .common import run, COQ, NCPU
+    rc, so, se = run(["timeout", "3000", "make", "-k", "-j%d" % NCPU], cwd=COQ, timeout=3100)
+    if rc != 0:
+        # every check rebuilds the target it needs; a file that does not build only breaks the checks depending on it
+        log((so + se)[-3000:])
+        log("coq build: some files failed (see above)")
     try:
         from . import harness_setup
         return harness_setup.main()
